@@ -25,12 +25,21 @@ Second part (whole controller, `Model.PtpFilter`; histories = `Ctrl.run c ops`):
   steering over histories                                              steer_within_max_history, steer_log_sound_history,
                                                                         estimate_tracks_steer_step / _tick / _history,
                                                                         controller_invariant_history
+Third part (final round):
+  no panic along any controller history                                 controller_never_panics_history, windows_ordered,
+                                                                        consensus_never_panics (F-C43c fixed)
+  estimator holds a link's delay state iff tracked and active          link_estimator_sync_history,
+                                                                        link_state_change_never_fails_spuriously
+  leap vote / local root delay                                          leap_vote_strict_majority, local_root_delay_is_minimum
 -/
 import NtpVerif.Proofs.EstimatorNum
 import NtpVerif.Proofs.F64
 import NtpVerif.Model.PtpCtrl
 import NtpVerif.Proofs.PtpFilterInv
 import NtpVerif.Proofs.PtpCtrlInv
+import NtpVerif.Proofs.PtpVotes
+import NtpVerif.Proofs.PtpNoPanic3
+import NtpVerif.Proofs.PtpLinkSync4
 
 namespace NtpVerif.C43
 open NtpVerif.Estimator NtpVerif.PtpCtrl
@@ -281,7 +290,7 @@ theorem no_window_if_unfit (l : FLink) (cfg : Cfg) (est : E)
         F64.lt (halfWindow cfg e delay noise) cfg.maxW = false)) :
     ∀ w, offsetWindow l cfg est ≠ .ok (some w) := by
   intro w hw
-  obtain ⟨e, delay, noise, he, hu, hne, hest, hlt⟩ := offsetWindow_some hw
+  obtain ⟨e, delay, noise, he, hu, hne, hest, hlt, _, _⟩ := offsetWindow_some hw
   rcases h with h | ⟨e', he', hu'⟩ | ⟨e', he', hne'⟩ | h | ⟨e', d', n', he', hest', hlt'⟩
   · rw [h] at he; cases he
   · rw [he'] at he; cases he; rw [hu] at hu'; cases hu'
@@ -489,6 +498,85 @@ theorem estimate_tracks_steer_history {now : Nat} {max w : F64} {cfg : Cfg} {c0 
   exact ⟨a, b, c', d⟩
 
 
+/-! ### no panics in the link filter and the controller; leap vote and local root delay -/
+
+/-- **C43.windows_ordered** — (code as fixed by fixes/C43-negative-window.patch) every window `offset_window`
+    computes is `[x − h, x + h]` with a half width `h ≥ 0` — whatever the configuration weights are — hence,
+    by the one arithmetic fact `WindowLaw`, its low bound never sorts after its high bound. -/
+theorem windows_ordered (hlaw : WindowLaw) (f : Filter) (cfg : Cfg) (h : WF f.est) :
+    ∃ ws, windows f cfg = .ok ws ∧ ∀ o ∈ ws, ∀ w, o = some w → boundLe (w.low, false) (w.high, true) = true :=
+  windows_total hlaw f cfg h
+
+/-- **C43.consensus_never_panics** — with ordered windows `find_external_consensus_window` neither
+    underflows its overlap counter (`cur -= 1`) nor trips `assert_eq!(maxlow, maxhigh)`: it returns a window
+    or none.  (Before the fix a negative `select_*_window` weight gave low > high and the sweep panicked on the
+    REAL code: finding F-C43c, witness = corpus case 1 of stream c43_ctrl.) -/
+theorem consensus_never_panics (cfg : Cfg) (ws : List (Option Window))
+    (hord : ∀ w ∈ ws.filterMap id, boundLe (w.low, false) (w.high, true) = true) :
+    ∃ r, consensusOf cfg (boundsOf ws) = .ok r :=
+  consensusOf_total cfg ws hord
+
+/-- **C43.controller_never_panics_history** — along every controller history from `Ctrl.new` (so with at
+    least the system clock) whose clocks report a maximum frequency `m` with `−m ≤ m` (not NaN, not negative:
+    otherwise `f64::clamp` panics by contract), no call — clock / link management, external data update,
+    `KalmanLink::measurement` with link selection, Kalman update and `steer_clocks` — fails with a panic or a
+    `MatrixError`: no `clocks[0]` index failure, no matrix index out of range, no counter underflow, no failed
+    assert.  What can fail are only the documented errors (unknown ids, both clocks external, clocks equal,
+    clock in use, non-monotonic time, …).  Hypothesis `WindowLaw`: the IEEE fact `x − h` does not sort after
+    `x + h` for `h ≥ 0` (arithmetic is otherwise uninterpreted, NaN estimates included). -/
+theorem controller_never_panics_history (hlaw : WindowLaw) {now : Nat} {max w : F64} {cfg : Cfg} {c0 : Ctrl}
+    (h0 : Ctrl.new now max w cfg = .ok c0) (hmax : F64.le (F64.neg max) max = true) (ops : List COp)
+    (hops : ∀ op ∈ ops, op.Sane) (op : COp) (e : FErr)
+    (he : (c0.run ops).1.failure op = some e) : e.isBug = false :=
+  ctrl_failure_noBug hlaw (inv_run ops c0 (inv_new h0))
+    (healthy_run ops c0 (inv_new h0) (healthy_new hmax h0) hops) op he
+
+/-- **C43.link_estimator_sync_history** — in every controller history the estimator holds a link's delay state
+    exactly while that link is tracked and active (`LinkSync.sync`), every delay state in the estimator belongs
+    to such a link (`owned`), link ids are unique, and every link uid is below the uid counter. -/
+theorem link_estimator_sync_history {now : Nat} {max w : F64} {cfg : Cfg} {c0 : Ctrl}
+    (h0 : Ctrl.new now max w cfg = .ok c0) (ops : List COp) : CtrlSync (c0.run ops).1 :=
+  ctrlSync_run ops c0 (inv_new h0) (ctrlSync_new h0)
+
+/-- **C43.link_state_change_never_fails_spuriously** — with that invariant, letting a tracked link's delay
+    state enter or leave the estimator (`add_link` / `remove_link` inside `LinkFilter::measurement`) can fail
+    only with `UnknownClock` — an end point the estimator no longer knows, i.e. an external clock that was
+    removed while links still use it (the FIXME in `remove_external_clock`) — never with `LinkAlreadyExists`
+    or `UnknownLink`. -/
+theorem link_state_change_never_fails_spuriously {f : Filter} (hs : LinkSync f) (hw : WF f.est) {l : FLink}
+    (hl : l ∈ f.links) (delay noise : F64) (active' : Bool) {e : FErr}
+    (he : f.syncEst l delay noise active' = .error e) : e = .est .UnknownClock :=
+  syncEst_errors hs hw hl delay noise active' he
+
+
+/-- **C43.leap_vote_strict_majority** — `leap_vote` announces a leap status exactly when a strict majority of
+    the links that agree with the consensus window AND announce any status announce that one (links without
+    a status do not vote); without a consensus window there is no vote. -/
+theorem leap_vote_strict_majority {f : Filter} {cfg : Cfg} :
+    (consensus f cfg = .ok none → f.leapVote cfg = .ok none) ∧
+    (∀ cw ls, consensus f cfg = .ok (some cw) → agreeing f cfg cw = .ok ls → ∀ x : Leap,
+      (f.leapVote cfg = .ok (some x) ↔ leapCount ls x * 2 > leapTotal ls)) := by
+  refine ⟨leapVote_spec.1, ?_⟩
+  intro cw ls hc ha x
+  rw [leapVote_spec.2 cw ls hc ha]
+  unfold leapTotal
+  cases x <;> (split <;> (try split) <;> (try split)) <;> simp_all <;> omega
+
+/-- **C43.local_root_delay_is_minimum** — `local_root_delay` is, over the links that agree with the consensus
+    window, the minimum of `root_delay + link delay`: it is attained by one of them (or is `f64::MAX` when none
+    has a value), is never NaN, and is `≤` every non-NaN candidate; without a consensus window it is `None`. -/
+theorem local_root_delay_is_minimum {f : Filter} {cfg : Cfg} :
+    (consensus f cfg = .ok none → f.localRootDelay cfg = .ok none) ∧
+    (∀ cw ls, consensus f cfg = .ok (some cw) → agreeing f cfg cw = .ok ls →
+      ∃ r, f.localRootDelay cfg = .ok (some r) ∧ r.isNaN = false ∧
+        (∀ l ∈ ls, ∀ s, rootCandidate l = some s → s.isNaN = false → F64.le r s = true) ∧
+        (r = F64_MAX ∨ ∃ l ∈ ls, rootCandidate l = some r)) := by
+  refine ⟨localRootDelay_spec.1, ?_⟩
+  intro cw ls hc ha
+  obtain ⟨n, _, c, a⟩ := rdFold_spec ls F64_MAX rfl
+  exact ⟨_, localRootDelay_spec.2 cw ls hc ha, n, c, a⟩
+
+
 /-! #### non-vacuity of the whole-controller theorems (the arithmetic-dependent arms — links turning
 active / inactive, frequency steering, clamping — are witnessed by the hit counters of stream c43_ctrl) -/
 
@@ -529,3 +617,10 @@ end NtpVerif.C43
 #print axioms NtpVerif.C43.controller_invariant_history
 #print axioms NtpVerif.C43.estimate_tracks_steer_tick
 #print axioms NtpVerif.C43.estimate_tracks_steer_history
+#print axioms NtpVerif.C43.windows_ordered
+#print axioms NtpVerif.C43.consensus_never_panics
+#print axioms NtpVerif.C43.controller_never_panics_history
+#print axioms NtpVerif.C43.link_estimator_sync_history
+#print axioms NtpVerif.C43.link_state_change_never_fails_spuriously
+#print axioms NtpVerif.C43.leap_vote_strict_majority
+#print axioms NtpVerif.C43.local_root_delay_is_minimum
